@@ -195,6 +195,24 @@ fn keys_for<V: Fv>(seed: u64, nheavy: usize, nlight: usize, heavy: &mut Shards, 
             light.emit(json!({"ev":"sigrt","n":V::N,"siglen":V::SIG_LEN,"rt_equal":ok,"tag":"roundtrip-after-use","detail":detail}));
         }
     }
+    // key generation on a thread that has just generated a key of the OTHER variant (state sized or filled by the other degree)
+    {
+        let seeds: Vec<[u8; 32]> = (0..(if nheavy > 8 { 12u8 } else { 5 })).map(|i| [i.wrapping_mul(37).wrapping_add(3); 32]).collect();
+        let evs = std::thread::spawn(move || {
+            crate::common::install_panic_hook();
+            let mut v = vec![];
+            for s in seeds {
+                if V::N == 512 { let _ = V1024::keygen([s[0] ^ 0x5a; 32]); } else { let _ = V512::keygen([s[0] ^ 0x5a; 32]); }
+                let (obs, _) = observe_key::<V>(s, "after-other-variant-keygen");
+                v.push((obs.heavy, obs.light));
+            }
+            v
+        }).join().unwrap();
+        for (h, l) in evs {
+            heavy.emit(h);
+            light.emit(l);
+        }
+    }
     // keys from the other public constructor (operating-system entropy): the same facts, the seed is not known
     for _ in 0..(if nheavy > 8 { 3 } else { 1 }) {
         let (obs, kp) = observe_with::<V>([0u8; 32], "generate-os-entropy", || V::generate());
